@@ -15,9 +15,10 @@ const (
 	endHalfClose = iota
 	endClose
 	endReset
+	endResetOnce // the reset is reported by one Read only, later reads see end of stream (Linux)
 )
 
-var endNames = []string{"half-close", "close", "reset"}
+var endNames = []string{"half-close", "close", "reset", "reset-reported-once"}
 
 // cutRun serves stream[:cut] of a pipeline and then ends the stream in the given mode.
 // chunk: 0 = the whole prefix at once, otherwise seeded chunking from the tape.
@@ -61,9 +62,10 @@ func cutRun(tape *sim.Tape, o *Outcome, mk func() []*wl.Req, cut int, mode int, 
 	case endClose:
 		c.P.Ends[0].Close()
 		c.S.Count("end_close")
-	case endReset:
+	case endReset, endResetOnce:
+		c.P.Dir(0).RstOnce = mode == endResetOnce
 		c.P.Ends[0].Reset(false)
-		c.S.Count("end_reset")
+		c.S.Count("end_" + strings.ReplaceAll(endNames[mode], "-", "_"))
 		if deliverable < cut {
 			c.S.Count("reset_dropped_undelivered")
 		}
@@ -95,11 +97,50 @@ func runC11(t *testing.T, tape *sim.Tape, tier string) *Outcome {
 			protoReqs = append(protoReqs, g.Next(i, 0, 0))
 		}
 	}
+	// one pipeline in eight ends with a large text value (70 KB, CRLF-terminated lines): its cuts are sampled at
+	// structural places (after embedded line ends, around powers of two of the payload, in the terminator)
+	bigMode := tape.Draw(8, "bigvalue") == 7
+	var bigCuts []int
+	if bigMode {
+		const L, line = 70000, 997
+		payload := make([]byte, L)
+		for i := range payload {
+			payload[i] = byte('a' + i%26)
+		}
+		var lineEnds []int
+		for e := line; e+2 <= L-3; e += line {
+			payload[e], payload[e+1] = '\r', '\n'
+			lineEnds = append(lineEnds, e+2)
+		}
+		args := []string{"SET", "big", string(payload)}
+		big := &wl.Req{Idx: 0, Name: "SET", Args: args, Bytes: resp.Cmd(args...), Class: "valid"}
+		if len(protoReqs) > 1 {
+			protoReqs = protoReqs[:1]
+		}
+		protoReqs[0].Idx = 0
+		big.Idx = 1
+		protoReqs = append(protoReqs, big)
+		base := len(protoReqs[0].Bytes)
+		pstart := base + len(big.Bytes) - (L + 2)
+		end := base + len(big.Bytes)
+		bigCuts = append(bigCuts, 0, base, base+4, pstart-1, pstart, pstart+1)
+		for _, e := range lineEnds {
+			if tape.Draw(3, "lineend") == 0 {
+				bigCuts = append(bigCuts, pstart+e-1, pstart+e)
+			}
+		}
+		for _, pw := range []int{1 << 12, 1 << 15, 1 << 16, 1<<16 + 2} {
+			bigCuts = append(bigCuts, pstart+pw-1, pstart+pw, pstart+pw+1)
+		}
+		// the last line end before the end of the payload and the terminator region
+		bigCuts = append(bigCuts, pstart+lineEnds[len(lineEnds)-1], end-3, end-2, end-1, end)
+		o.stat("pipelines_with_large_value", 1)
+	}
 	total := 0
 	for _, r := range protoReqs {
 		total += len(r.Bytes)
 	}
-	for total > 420 && len(protoReqs) > 1 { // keep the enumeration affordable
+	for !bigMode && total > 420 && len(protoReqs) > 1 { // keep the enumeration affordable
 		total -= len(protoReqs[len(protoReqs)-1].Bytes)
 		protoReqs = protoReqs[:len(protoReqs)-1]
 	}
@@ -216,8 +257,16 @@ func runC11(t *testing.T, tape *sim.Tape, tier string) *Outcome {
 		}
 		o.Hashes = append(o.Hashes, hash64(fmt.Sprintf("%x|%d|%d|%d|%d", hash64(string(ref.stream)), cut, mode, chunk, drop)))
 	}
-	for cut := 0; cut <= total && len(o.Viol) == 0; cut++ {
-		for mode := 0; mode < 3; mode++ {
+	for _, cut := range bigCuts {
+		if len(o.Viol) > 0 {
+			break
+		}
+		for mode := 0; mode < 4; mode++ {
+			check(cut, mode, 0, 0)
+		}
+	}
+	for cut := 0; !bigMode && cut <= total && len(o.Viol) == 0; cut++ {
+		for mode := 0; mode < 4; mode++ {
 			check(cut, mode, 0, 0)
 			check(cut, mode, seeded, 0)
 		}
@@ -236,7 +285,7 @@ func init() {
 	register(&Check{
 		ID: "C11", Bubble: true, Run: runC11,
 		Runs:   map[string]int{"quick": 96, "thorough": 2500},
-		Rule:   "per generated pipeline (1..4 valid requests, <= 420 bytes): every byte offset 0..len x {half-close, close, reset} x 2 delivery schedules (whole prefix, seeded chunking), plus one reset per offset that drops a drawn amount of undelivered bytes - enumerated completely per pipeline; pipelines are sampled; distinct = distinct (pipeline, offset, end mode, schedule, drop) tuples; every case ends a stream so all are non-trivial",
+		Rule:   "per generated pipeline (1..4 valid requests, <= 420 bytes): every byte offset 0..len x {half-close, close, reset, reset whose error only one read reports (then end of stream, as on Linux)} x 2 delivery schedules (whole prefix, seeded chunking), plus one reset per offset that drops a drawn amount of undelivered bytes - enumerated completely per pipeline; one pipeline in eight instead ends with a 70 KB text value of CRLF-terminated lines whose cuts are sampled at structural places (after embedded line ends, around powers of two of the payload, inside the terminator); pipelines are sampled; distinct = distinct (pipeline, offset, end mode, schedule, drop) tuples; every case ends a stream so all are non-trivial",
 		Real:   []string{"redis.Server connection loop, parser, dispatch, executors, connection registry"},
 		Stub:   []string{"transport: simulated net.Conn with FIN / full close / RST", "handler: recording double"},
 		Assume: []string{"the expected handler calls of a completely received request are those of the fault-free run of the same pipeline"},
